@@ -319,7 +319,7 @@ def _run_write_txn(ctx, b, m, t, abort_at=None, hook=None, final=True):
                             seen_delete.add(nm)
                         elif op["o"] in ("add", "replace") and nm in seen_delete:
                             res.probes.inc("add_after_delete_same_node")
-                        res.state(hash(work.snapshot()))
+                        res.state(Z.stable_hash(work.snapshot()))
                 elif final:
                     res.probes.inc("legit_error_then_continue")
                 if work.snapshot() != (pre if t["kind"] != "repl" else frozenset()):
@@ -424,7 +424,7 @@ def _run_config(ctx, case, kind, relativize):
             # body is left through an exception after the last operation
             _run_write_txn(ctx, b, m, t, abort_at=n, hook=t["hook"], final=False)
         m = _run_write_txn(ctx, b, m, t, final=True)
-        ctx.log.add(kind, relativize, ti, hash(m.snapshot()) & 0xFFFFFFFF)
+        ctx.log.add(kind, relativize, ti, Z.stable_hash(m.snapshot()))
     return m.snapshot()
 
 
@@ -439,12 +439,12 @@ def run_case(case, keep_log=False):
             finals[(kind, rel)] = _run_config(ctx, case, kind, rel)
         vals = set(finals.values())
         if len(vals) > 1:
-            raise Violation("C10:configs-differ", f"final content differs between configurations: {[(k, hash(v) & 0xffff) for k, v in finals.items()]}")
+            raise Violation("C10:configs-differ", f"final content differs between configurations: {[(k, Z.stable_hash(v)) for k, v in finals.items()]}")
     except Violation as v:
         res.violation = (v.cls if ":" in v.cls else "C10:" + v.cls, v.detail)
     except Z.Planned as e:
         res.violation = ("C10:planned-exception-leaked", str(e))
-    log.add("final", sorted(hash(v) & 0xFFFFFFFF for v in finals.values()))
+    log.add("final", sorted(Z.stable_hash(v) for v in finals.values()))
     res.digest = log.digest()
     res.nontrivial = res.faults.get("exception_after_op_k", 0) > 0 and len(res.states) > 0
     res.steps = sum(len(t["ops"]) for t in case["txns"])
